@@ -410,6 +410,7 @@ Section Sim.
       bin_off c2 = None /\
       let c3 := post_matched cfg c2 s p (p + length l) in
       pos c3 = pos c /\ log c3 = g_out g' ++ [EBegin] /\ bin_off c3 = None /\ has_matched c3 = true /\
+      last_line_visited c3 = p + length l /\
       (terminated ltb l -> R0 c3 g').
   Proof.
     intros HR Hoff Hns Hnl g'.
@@ -494,6 +495,7 @@ Section Sim.
       split; [rewrite Hlog; now rewrite app_assoc|].
       split; [exact F3|].
       split; [congruence|].
+      split; [exact F8|].
       intro Ht.
       constructor; cbn [g_off g_out g_after g_sunk g_matched g_pend g_lnum rev]; try assumption.
       + rewrite Hlog. now rewrite app_assoc.
@@ -607,7 +609,7 @@ Section Sim.
     destruct success eqn:Es.
     - (* the line is a match *)
       destruct (matched_step c0 g p l HR00 Hoff Hns Hnl) as (c2 & Hrun & H2bin & Hc3).
-      cbn zeta in Hc3. destruct Hc3 as (Hp3 & Hlog3 & Hbin3 & Hm3 & HR3).
+      cbn zeta in Hc3. destruct Hc3 as (Hp3 & Hlog3 & Hbin3 & Hm3 & Hllv3 & HR3).
       rewrite Hrun. cbn [andthen].
       rewrite (sink_matched_K cfg Hbin) by exact H2bin. cbn [andthen].
       rewrite andb_false_r. cbn [andb].
@@ -712,6 +714,109 @@ Section Sim.
         { cbn. lia. }
         constructor; auto.
         intro Hall. inversion Hall. auto.
+  Qed.
+
+  Lemma line_step_seq p l en : next_line p l -> p + length l <= en -> en <= length s ->
+    line_step ltb s p en = Some (p, p + length l).
+  Proof.
+    intros Hnl Hen Hs. pose proof Hnl as (Hsub & Hb & [Ht|[Hp He]]).
+    - apply line_step_sub; auto.
+    - assert (en = length s) by lia. subst en. apply line_step_next. exact Hnl.
+  Qed.
+
+  Lemma lines_seq_bound : forall pre p, lines_seq pre p -> pre <> [] -> p + length (concat pre) <= length s.
+  Proof.
+    induction pre as [|l r IH]; intros p H Hne; [congruence|].
+    destruct H as ((_ & Hb & _) & _ & Hr). cbn [concat]. rewrite app_length.
+    destruct r as [|l2 r2]; [cbn; lia|].
+    specialize (IH (p + length l) Hr ltac:(discriminate)). lia.
+  Qed.
+
+  Lemma after_loop_run : forall pre fuel c g p,
+    R0 c g -> g_off g = p -> last_line_visited c = p -> 1 <= g_after g ->
+    g_stopped g = false -> c_passthru cfg = false -> c_stop_on_nonmatch cfg && g_matched g = false ->
+    lines_seq pre p -> Forall nonsuccess pre -> length pre < fuel ->
+    exists c', after_loop cfg K true fuel c s p (p + length (concat pre)) = OK true c' /\
+               run_post c c' g (fold_left gstep pre g) (p + length (concat pre)) pre.
+  Proof.
+    induction pre as [|l r IH]; intros fuel c g p HR Hoff Hllv Ha Hns Hpt Hstop Hseq Hnon Hf.
+    - destruct fuel as [|f]; [cbn in Hf; lia|]. cbn [after_loop concat length fold_left].
+      rewrite Nat.add_0_r. unfold ltb_. rewrite line_step_end by lia.
+      exists c. split; [reflexivity|]. pose proof HR as []. constructor; auto.
+    - destruct fuel as [|f]; [cbn in Hf; lia|].
+      destruct Hseq as (Hnl & Hterm & Hrest). inversion Hnon as [|? ? Hl Hr].
+      pose proof (lines_seq_bound (l :: r) p (conj Hnl (conj Hterm Hrest)) ltac:(discriminate)) as Hbound.
+      cbn [after_loop concat fold_left] in *. rewrite app_length in *. rewrite Nat.add_assoc.
+      unfold ltb_. rewrite (line_step_seq p l) by (auto; lia).
+      pose proof HR as [Rabs Rbin Rlog Rafter Rsunk Rlaid Rllv Rllc Rln Rlnum Rap Rale].
+      rewrite (sink_after_K cfg Hbin) by exact Rbin. cbn [andthen].
+      assert (Hstep : gstep g l = g_after_step g l false).
+      { unfold g_step. unfold nonsuccess in Hl. rewrite Hl. rewrite (g_step_nonmatch g l Hns). cbn zeta.
+        destruct (Nat.leb_spec 1 (g_after g)); [|lia]. now rewrite Hstop. }
+      rewrite Hstep.
+      destruct (ctx_step CAfter c g p l false HR Hoff Hnl) as (Fp & Fm & Flog & Fbin & FR);
+        [auto|discriminate|discriminate|].
+      cbn zeta in Fp, Fm, Flog, Fbin, FR.
+      set (c1 := post_ctx cfg CAfter c s p (p + length l)) in *.
+      set (g1 := g_after_step g l false) in *.
+      assert (Hacl : after_context_left c1 = g_after g - 1).
+      { unfold c1, post_ctx, with_event. cbn [after_context_left set_visited set_log].
+        destruct (count_lines_spec c p Rln ltac:(lia)) as (_ & _ & _ & _ & _ & _ & _ & _ & C9 & _).
+        rewrite C9, Rafter. reflexivity. }
+      destruct r as [|l2 r2].
+      + (* last line of the run *)
+        cbn [fold_left concat length]. rewrite Nat.add_0_r.
+        exists c1. split.
+        { destruct (Nat.eqb (after_context_left c1) 0); [reflexivity|].
+          destruct f as [|f']; [cbn in Hf; lia|]. cbn [after_loop]. unfold ltb_. rewrite line_step_end by lia. reflexivity. }
+        constructor; auto.
+        * unfold g1. cbn. lia.
+        * intro Hall. inversion Hall. auto.
+      + assert (Ht : terminated ltb l) by (apply Hterm; discriminate).
+        pose proof (FR Ht) as HR1.
+        destruct (Nat.eqb_spec (after_context_left c1) 0) as [E0|E0].
+        * (* the credit is used up: the remaining lines stay pending *)
+          exists c1. split; [reflexivity|].
+          pose proof (pend_run (l2 :: r2) c1 g1 (p + length l) HR1) as P.
+          destruct P as [P1 P2 P3 P4 P5 P6 P7 P8]; auto.
+          { unfold g1. cbn. lia. } { unfold g1. cbn. lia. }
+          constructor; auto; try congruence.
+          intro Hall. inversion Hall. auto.
+        * destruct (IH f c1 g1 (p + length l) HR1) as (c' & Hrun & P); auto.
+          { unfold g1. cbn. lia. } { unfold g1. cbn. lia. } { cbn in Hf |- *. lia. }
+          exists c'. split; [exact Hrun|].
+          destruct P as [P1 P2 P3 P4 P5 P6 P7 P8].
+          constructor; auto; try congruence.
+          intro Hall. inversion Hall. auto.
+  Qed.
+
+  Lemma nonmatch_run pre c g p :
+    R0 c g -> g_off g = p -> g_stopped g = false -> c_passthru cfg = false ->
+    c_stop_on_nonmatch cfg && g_matched g = false ->
+    lines_seq pre p -> Forall nonsuccess pre ->
+    exists c', after_context_by_line cfg K true c s (p + length (concat pre)) = OK true c' /\
+               run_post c c' g (fold_left gstep pre g) (p + length (concat pre)) pre.
+  Proof.
+    intros HR Hoff Hns Hpt Hstop Hseq Hnon.
+    pose proof HR as [Rabs Rbin Rlog Rafter Rsunk Rlaid Rllv Rllc Rln Rlnum Rap Rale].
+    unfold after_context_by_line.
+    destruct (Nat.eqb_spec (after_context_left c) 0) as [E0|E0].
+    - exists c. split; [reflexivity|]. apply pend_run; auto. lia.
+    - assert (Ha : 1 <= g_after g) by lia.
+      assert (Hllv : last_line_visited c = p).
+      { rewrite (Rap Ha) in Rllv. cbn in Rllv. lia. }
+      rewrite Hllv.
+      apply after_loop_run; auto.
+      destruct pre as [|l r]; [cbn; lia|].
+      pose proof (lines_seq_bound (l :: r) p Hseq ltac:(discriminate)).
+      assert (length (l :: r) <= length (concat (l :: r))).
+      { clear -Hseq. revert p Hseq. generalize (l :: r) as ls. induction ls as [|x xs IH]; intros p H; [cbn; lia|].
+        destruct H as ((Hsub & Hb & Hshape) & _ & Hr). cbn [concat length]. rewrite app_length.
+        specialize (IH _ Hr).
+        assert (1 <= length x).
+        { destruct Hshape as [Ht|[[Hne _] _]]; [now apply (terminated_length ltb)|destruct x; [congruence|cbn; lia]]. }
+        lia. }
+      lia.
   Qed.
 
   (* ------------------------------------------------------------------ the whole loop *)
